@@ -15,7 +15,10 @@ SPEC = {
                "op:FeePerGas/+1": 100, "op:Proposer/not-an-identity": 100, "op:Proposer/offline-identity": 50, "op:Body/drop-tx/commitment-recomputed": 50,
                "op:Body/drop-tx/commitment-stale": 50, "op:Body/reorder/commitment-stale": 20, "op:Time/beyond-future-offset": 100,
                "op:Flags/toggle-Snapshot": 100, "op:SeedProof/bitflip": 100, "op:Time/extreme-max-int64": 100, "op:Header/proposed-plus-junk-empty": 100,
-               "op:Header/empty-plus-junk-proposed": 20, "op:Proposer/formerly-online-now-not-validated": 50},
+               "op:Header/empty-plus-junk-proposed": 20, "op:Proposer/formerly-online-now-not-validated": 50,
+               "op:Seed/pair-replayed-from-earlier-block-of-the-proposer": 100, "variants_offered_after_honest_validation": (8000, 80000),
+               "blocks_crossing_the_gas_limit_with_their_last_tx": (12, 60), "op:Body/append-behind-the-gas-limit-crossing/valid-tx": (12, 60),
+               "op:Body/over-gas-limit-then-unaffordable": 100, "rejected:block exceeds gas limit": 100},
     "parallel": 16,
     "assumptions": ["consensus config V12"],
 }
